@@ -20,6 +20,8 @@ func sc(parts ...string) []cmd {
 			out = append(out, cmd{op: p})
 		case p == "echo" || p == "hold":
 			out = append(out, cmd{op: "call", arg: p})
+		case len(p) > 4 && p[:4] == "sat:":
+			out = append(out, cmd{op: "rel", arg: p[4:], sat: true})
 		default:
 			out = append(out, cmd{op: "rel", arg: p})
 		}
@@ -50,6 +52,9 @@ func directed() []dcase {
 			dcase{"unlimited-budget", -1, uid, nil, "uuuuuuu", 'a', sc("cut", "r0", "r0")},
 			dcase{"budget-zero", 0, uid, nil, "", 'a', sc("hold", "cut", "r0")},
 			dcase{"repeated-losses", 2, uid, nil, "ua", 'a', sc("cut", "r0", "r0", "echo", "cut", "r1", "r1", "echo")},
+			dcase{"pool-saturated-reader-round", 2, uid, nil, "", 'a', sc("cut", "r0", "sat:r0", "echo")},
+			dcase{"pool-saturated-writer-round", 2, uid, []string{gStored}, "", 'a', sc("cut", "r0", "echo", "sat:c0")},
+			dcase{"pool-saturated-resurrect", 1, uid, nil, "uu", 'a', sc("cut", "r0", "r0", "echo", "sat:c0", "cut")},
 			dcase{"call-after-end-resurrects", 1, uid, nil, "uu", 'a', sc("cut", "r0", "r0", "echo", "c0")},
 		)
 	}
